@@ -382,8 +382,8 @@ def rand_arith(r, depth, ints, var=None):
   # left operand: a unary minus may lead a sum or a product; lower precedence needs parentheses
   if (lp < mine and lp != 0) or r.random() < 0.25:
     lt = '(%s)' % lt
-  if rp <= mine or r.random() < 0.25:
-    rt = '(%s)' % rt
+  if rp <= mine or rt.startswith('-') or r.random() < 0.25:
+    rt = '(%s)' % rt      # also: the parser does not read `a - -b` / `a * -b`
   v = lv + rv if k == '+' else lv - rv if k == '-' else lv * rv
   return '%s %s %s' % (lt, k, rt), v, mine
 
